@@ -205,52 +205,9 @@ func init() {
 		// --- iwrapper.Get: when are minTs/maxTs (re)initialised? -----------------------------------
 		// `if iw.minTs > lge.Timestamp || !iw.tsSet { … }`, `if iw.maxTs < lge.Timestamp || !iw.tsSet { … }`, `iw.tsSet = true`
 		// (before commit 6624754 the second disjunct was `iw.minTs == 0` / `iw.maxTs == 0`: 0 meant "unset")
-		fw := parseFile("pkg/partition/iwrapper.go")
-		flagDisj, zeroDisj, setsFlag := 0, 0, false
-		if fd := funcDecl(fw, "iwrapper", "Get"); fd != nil {
-			ast.Inspect(fd.Body, func(n ast.Node) bool {
-				switch x := n.(type) {
-				case *ast.IfStmt:
-					be, ok := x.Cond.(*ast.BinaryExpr)
-					if !ok || be.Op != token.LOR {
-						return true
-					}
-					first, ok := be.X.(*ast.BinaryExpr)
-					if !ok {
-						return true
-					}
-					if se, ok := first.X.(*ast.SelectorExpr); !ok || (se.Sel.Name != "minTs" && se.Sel.Name != "maxTs") {
-						return true
-					}
-					switch y := be.Y.(type) {
-					case *ast.UnaryExpr:
-						if se, ok := y.X.(*ast.SelectorExpr); ok && y.Op == token.NOT && se.Sel.Name == "tsSet" {
-							flagDisj++
-						}
-					case *ast.BinaryExpr:
-						if v, ok := intLit(y.Y); ok && v == 0 && y.Op == token.EQL {
-							zeroDisj++
-						}
-					}
-				case *ast.AssignStmt:
-					if len(x.Lhs) == 1 && len(x.Rhs) == 1 {
-						if se, ok := x.Lhs[0].(*ast.SelectorExpr); ok && se.Sel.Name == "tsSet" {
-							if id, ok := x.Rhs[0].(*ast.Ident); ok && id.Name == "true" {
-								setsFlag = true
-							}
-						}
-					}
-				}
-				return true
-			})
-		} else {
-			problem("iwrapper.Get not found")
-		}
-		usesFlag := flagDisj == 2 && setsFlag && zeroDisj == 0
-		if !usesFlag && zeroDisj != 2 {
-			problem("iwrapper.Get: the min/max updates are neither guarded by `!iw.tsSet` (with `iw.tsSet = true`) nor by `== 0` (found flag=%d zero=%d set=%v)", flagDisj, zeroDisj, setsFlag)
-		}
-		l.p("/-- `iwrapper.Get` updates minTs/maxTs under `… || !iw.tsSet` and then sets `iw.tsSet = true` (false: the old `… || x == 0` sentinel) -/")
+		// read by structure through same-package helpers: c01_hull.go
+		usesFlag := c01HullUsesFlag()
+		l.p("/-- `iwrapper.Get` (with the same-package helpers it calls) initialises minTs/maxTs under a negated boolean field that it then sets to true — `… || !iw.tsSet` on both updates, or a first-timestamp branch `if !iw.tsSet { both; tsSet = true; return }` (false: the old `… || x == 0` sentinel) -/")
 		l.p("def iwrapperUnsetIsFlag : Bool := %s", leanBool(usesFlag))
 		// resetMinMaxTs is never called from Service.Write: the hull accumulates over the whole batch
 		resetCalled := false
@@ -768,6 +725,8 @@ func init() {
 		}
 		l.p("/-- `partition.Service.Shutdown` calls `Sync()` on every journal unconditionally and goes on to the next one — every `return` of the visitor is the constant `true`, no `break`/`return` in a plain loop (false: `Sync()` only under a condition, e.g. `Count() > 0`, which skips a journal whose records are all still buffered, or a visit that can stop early) -/")
 		l.p("def shutdownSyncsEveryJournal : Bool := %s", leanBool(syncUncond && visitsAll))
+		l.p("/-- which callers of `partition.Service.Write` hold a per-partition write lock while they append and announce their records: 2 = all (an unconditional `<local mutex>.Lock()` before the journal write), 1 = only those that publish a write event (`if !noEvent { … Lock() }`: pipe workers are not serialised), 0 = none -/")
+		l.p("def writeLockScope : Nat := %d", c01WriteLockScope())
 		qAny, qCopy := c01QueryCacheFacts()
 		l.p("/-- both query loops (api/rpc ServerQuerier.query, pkg/backend Querier.Query) refresh the printed fields whenever the event's fields differ from the cached value: the condition is exactly `<ev>.Fields != V` (false: further conjuncts, e.g. `len(<ev>.Fields) > 0 &&`, make the refresh rarer) -/")
 		l.p("def queryCacheRefreshOnAnyDifference : Bool := %s", leanBool(qAny))
